@@ -62,7 +62,7 @@ def takePad (n : Nat) (d : Bytes) : Bytes := d.take n ++ List.replicate (n - d.l
 def zeroish (t : PType) (v : Val) : Bool :=
   match t with
   | .string => match v with | .str .null _ => true | .str _ s => s.isEmpty | _ => true
-  | .bytes => match v with | .bin _ .null _ => true | .bin _ _ _ => false | _ => true
+  | .bytes => match v with | .bin len _ _ => len == 0 | _ => true   -- reads the first word of the struct: `len`
   | .message => match v with | .msg (some _) => false | _ => true
   | t => if t.is32 then v.asW32 == 0 else v.asW64 == 0
 
